@@ -61,8 +61,21 @@ def vectors(tier):
     return V
 
 
+SAMPLED = [c08.vec('hr', n1=6, n2=4, pmin=2, pmax=4, t1=0.2, t2=0.2, skew=5.0, lq=4, uq=6, twopl=True),
+           c08.vec('spa', n1=6, n2=8, n3=4, pmin=3, pmax=5, t1=0.2, t2=0.2, skew=5.0, lq=4, uq=10, llq=1, lt=4, luq=10, twopl=True),
+           c08.vec('sm', n1=12, pmin=12, pmax=12, twopl=True, t1=0.1, t2=0.1),
+           c08.vec('ha', n1=11, n2=11, pmin=11, pmax=11, uq=11),
+           c08.vec('spa', n1=12, n2=12, n3=5, pmin=2, pmax=4, uq=14, luq=15, t1=0.3)]
+
+
 def tasks(tier, seed):
-    return [{'v': v, 'split': k} for v in vectors(tier) for k in range(NSPLIT)]
+    out = [{'v': v, 'split': k} for v in vectors(tier) for k in range(NSPLIT)]
+    # beyond the exhaustive vectors: instances of README size and with two-digit identifiers, generated with the real
+    # RNG (seeded), through the same loader / LP obligations (validity over all MILP points, no exception)
+    for v in SAMPLED:
+        for k in range(1 if tier == 'quick' else 4):
+            out.append({'v': v, 'sample': seed * 100 + k})
+    return out
 
 
 def all_files(ns, v, split=None):
@@ -105,6 +118,8 @@ def run_task(task):
            'paths': 0, 'nontrivial': 0, 'controls': {}}
     v = task['v']
     ns = repo.load('real')
+    if 'sample' in task:
+        return sample_task(task, res, ns)
     E, paths = all_files(ns, v, task.get('split'))
     res['paths'] = len(paths)
     res['queries'] += E.stats['solver_queries']
@@ -172,6 +187,46 @@ def run_task(task):
     return res
 
 
+def sample_task(task, res, ns):
+    import numpy as np
+    v = task['v']
+    np.random.seed(task['sample'])
+    random.seed(task['sample'])
+    tmp = tempfile.mkdtemp(prefix='vf_c09s_')
+    try:
+        out = os.path.join(tmp, 'gen', 'instances')
+        with contextlib.redirect_stderr(io.StringIO()):
+            ns.generator.Generator(c08.argv_of(v, out))
+        with open(os.path.join(out, '0.txt')) as f:
+            text = f.read()
+    finally:
+        shutil.rmtree(tmp, ignore_errors=True)
+    na = 3 if v['mp'] == 'spa' else 2
+    twopl = bool(v.get('twopl'))
+    res['paths'] = 1
+    res['nontrivial'] = 1
+    res['obligations'] += 1
+    J = spec.parse_text(text, na, twopl)
+    bad = load_and_compare(ns, text, J, na, twopl)
+    if bad:
+        res['cex'].append({'tag': 'load/%s' % bad[0], 'what': 'solver reading of a generated file: %s' % bad[1], 'data': {'v': v, 'file': text, 'stage': 'load'}})
+        return res
+    res['discharged'] += 1
+    shape = lpchecks.shape_data(J)
+    num = [J.plq, J.puq, J.llq, J.lt, J.luq]
+    for fl in ([['twopl'], ['twopl', 'stab']] if twopl else [[], ['pc']]):
+        for seq in ([], [('maxsize', [])]):
+            t = {'prop': ID, 'shape': shape, 'flags': fl, 'seq': seq, 'forms': ['noexc', 'valid'], 'wf': False, 'num': num}
+            r = lpchecks.analyse(t)
+            for k in ('obligations', 'discharged', 'unknown', 'queries', 'solver_time'):
+                res[k] += r[k]
+            for c in r['cex']:
+                res['cex'].append({'tag': 'lp/' + c['tag'], 'what': c['what'] + ' (flags %s, criteria %s)' % (fl, seq),
+                                   'data': {'v': v, 'file': text, 'stage': 'lp', 'inner': c}})
+    res['sample'] = {'v': v, 'sampled_seed': task['sample'], 'file_head': text[:200]}
+    return res
+
+
 def load_and_compare(ns, text, J, na, twopl):
     tmp = tempfile.mkdtemp(prefix='vf_c09l_')
     try:
@@ -221,6 +276,8 @@ def describe_task(t):
 
 def task_cost(t):
     v = t['v']
+    if 'sample' in t:
+        return 100
     return (3 if v.get('twopl') else 1) * (2 if v['mp'] == 'spa' else 1)
 
 
